@@ -755,6 +755,44 @@ pub fn write_substore_docs(sub: &std::path::Path, i: usize) -> std::path::PathBu
 /// two STAM JSON documents over the same resource and the same dataset identifier, the second merged into the store
 /// loaded from the first (`from_file(a)?.with_file(b)`): the store must hold what both files say — every key, every
 /// data item with its value, every annotation with its data (referred to by id across the files) and its text
+/// a public identifier in the shape of a temporary one (`!A8`, `!D5`): the API accepts it and (since the fix recorded for C03)
+/// finds the item by it; the serialisation formats reserve that shape for temporary identifiers
+fn check_temp_shaped_public_ids(rep: &mut Report, property: Option<&str>, dir: &std::path::Path) {
+    let build = || -> AnnotationStore {
+        let mut store = AnnotationStore::default().with_id("s").with_resource(TextResourceBuilder::new().with_id("r0").with_text("hello world")).unwrap();
+        store.annotate(AnnotationBuilder::new().with_id("plain").with_target(SelectorBuilder::textselector("r0", Offset::simple(0, 5))).with_data_with_id("set", "k", "v", "d0")).unwrap();
+        store.annotate(AnnotationBuilder::new().with_id("!A8").with_target(SelectorBuilder::textselector("r0", Offset::simple(6, 11))).with_data_with_id("set", "k", "w", "!D5")).unwrap();
+        store
+    };
+    let ids = |st: &AnnotationStore| -> Vec<String> { let mut v: Vec<String> = st.annotations().map(|a| format!("annotation {:?} data {:?}", a.id(), a.data().map(|d| d.id().map(|x| x.to_string())).collect::<Vec<_>>())).collect(); v.sort(); v };
+    let ctx = vec!["store: annotation \"plain\" with data \"d0\", annotation \"!A8\" with data \"!D5\" (public identifiers in the shape of temporary ones)".to_string()];
+    let want = match guarded(std::panic::AssertUnwindSafe(|| ids(&build()))) { Ok(w) => w, Err(m) => { rep.fail("panic", "C05/temp-shaped-public-id/build-panics", ctx, "a store", &m); return; } };
+    if property.map(|p| p == "C05").unwrap_or(true) {
+        rep.count("json:temp-shaped-public-id");
+        let got = guarded(std::panic::AssertUnwindSafe(|| build().to_json_string(&Config::default()).and_then(|js| AnnotationStore::from_str(&js, Config::default())).map(|st| ids(&st)).map_err(|e| format!("{}", e))));
+        match got {
+            Ok(Ok(g)) if g == want => {}
+            Ok(Ok(g)) => rep.fail("oracle", "C05/roundtrip/public-id-in-the-shape-of-a-temporary-one", ctx.clone(), &format!("{:?}", want), &format!("{:?}", g)),
+            Ok(Err(e)) => rep.fail("oracle", "C05/roundtrip/public-id-in-the-shape-of-a-temporary-one", ctx.clone(), &format!("{:?}", want), &format!("does not load: {}", e)),
+            Err(m) => rep.fail("panic", "C05/roundtrip/public-id-in-the-shape-of-a-temporary-one", ctx.clone(), &format!("{:?}", want), &m),
+        }
+    }
+    if property.map(|p| p == "C15").unwrap_or(true) {
+        rep.count("csv:temp-shaped-public-id");
+        let sub = dir.join("tsid");
+        std::fs::create_dir_all(&sub).ok();
+        let path = sub.join("t.store.stam.csv");
+        let got = guarded(std::panic::AssertUnwindSafe(|| { let mut st = build(); st.to_file(path.to_str().unwrap()).map_err(|e| format!("{}", e))?; AnnotationStore::from_file(path.to_str().unwrap(), Config::default()).map(|st| ids(&st)).map_err(|e| format!("{}", e)) }));
+        match got {
+            Ok(Ok(g)) if g == want => {}
+            Ok(Ok(g)) => rep.fail("oracle", "C15/roundtrip/public-id-in-the-shape-of-a-temporary-one", ctx.clone(), &format!("{:?}", want), &format!("{:?}", g)),
+            Ok(Err(e)) => rep.fail("oracle", "C15/roundtrip/public-id-in-the-shape-of-a-temporary-one", ctx.clone(), &format!("{:?}", want), &format!("does not load: {}", e)),
+            Err(m) => rep.fail("panic", "C15/roundtrip/public-id-in-the-shape-of-a-temporary-one", ctx.clone(), &format!("{:?}", want), &m),
+        }
+        std::fs::remove_dir_all(&sub).ok();
+    }
+}
+
 fn check_merge(rep: &mut Report, dir: &std::path::Path, i: usize) {
     let sub = dir.join(format!("mg{}", i));
     std::fs::create_dir_all(&sub).ok();
@@ -888,6 +926,7 @@ pub fn run(opts: &Opts) -> Report {
             rep.sample(json!({"script": script, "canonical_form": before}));
         }
     }
+    check_temp_shaped_public_ids(&mut rep, property, &dir);
     if property.map(|p| p == "C05").unwrap_or(true) { for i in 0..12 { check_substores(&mut rep, &dir, i); } for i in 0..108 { check_merge(&mut rep, &dir, i); } }
     // minimise
     let mut done: std::collections::BTreeSet<(String, String)> = Default::default();
